@@ -65,7 +65,9 @@ BOUNDS = {
              "mapped_reconstructed_data for a fully symbolic reconstruction vector. Every L3 case reads two inversion objects per formalism in "
              "opposite orders (matrices -> curvature_reg_matrix / reconstruction / log-det terms -> matrices again; and history first), then "
              "inverts a second dataset (DatasetInterface sharing noise map, convolver, grids and w-tilde tables, OTHER data - symbolic in the "
-             "data modes) and the first dataset once more. Lists include two different function lists of equal size (2 and 3 columns).",
+             "data modes) and the first dataset once more. Lists include two different function lists of equal size (2 and 3 columns). The dataset is also built through the public "
+             "variants apply_mask (from the un-masked frame) and apply_over_sampling; a dataset with another concrete noise map that is handed the "
+             "first dataset's w-tilde tables must be rejected (InversionException) or still give B^T N^-1 B for its own noise map.",
     "thorough": "quick plus, under the same obligations: "
                 "L0 blurred matrices up to 9x6 and 8 symbolic noise values, mirrored matrices up to 9x9. "
                 "L1 data symbolic: ALL 65535 masks of a 4x4 window and all 4095 of a 3x4 window (3x3 kernel), all 4095 masks of a 3x4 window for the "
@@ -961,13 +963,26 @@ def _install_mirror_merge():
     u.curvature_matrix_mirrored_from = mirrored
 
 
-def build_dataset(mask2d, d, s, K):
+def build_dataset(mask2d, d, s, K, via="direct"):
+    """the imaging dataset with the un-normalised PSF K; `via` selects a public construction variant that must give the same dataset:
+    direct | apply_mask (un-masked Imaging, then apply_mask) | over_sampling (direct, then apply_over_sampling) | noise_scaling"""
     import autoarray as aa
     mask = aa.Mask2D(mask=mask2d, pixel_scales=1.0)
+    psf = aa.Kernel2D.no_mask(values=K, pixel_scales=1.0)
+    if via == "apply_mask":
+        s_full = native_from_slim(mask2d, s)
+        s_full = np.array(s_full, dtype=object)
+        s_full[mask2d] = np.float64(1.0)                  # the un-masked frame needs positive noise everywhere
+        from symx import shim
+        full = aa.Imaging(data=aa.Array2D.no_mask(values=native_from_slim(mask2d, d), pixel_scales=1.0),
+                          noise_map=aa.Array2D.no_mask(values=shim.normalise(s_full), pixel_scales=1.0), psf=psf, use_normalized_psf=False)
+        return mask, full.apply_mask(mask=mask)
     data = aa.Array2D(values=native_from_slim(mask2d, d), mask=mask)
     noise = aa.Array2D(values=native_from_slim(mask2d, s), mask=mask)
-    psf = aa.Kernel2D.no_mask(values=K, pixel_scales=1.0)
-    return mask, aa.Imaging(data=data, noise_map=noise, psf=psf, use_normalized_psf=False)
+    ds = aa.Imaging(data=data, noise_map=noise, psf=psf, use_normalized_psf=False)
+    if via == "over_sampling":
+        ds = ds.apply_over_sampling(over_sampling=aa.OverSamplingDataset(uniform=aa.OverSamplingUniform(sub_size=2)))
+    return mask, ds
 
 
 def _total_params(mask2d, specs):
@@ -978,7 +993,7 @@ def _total_params(mask2d, specs):
         return int(sum(linear_obj_from(sp, mask).params for sp in specs))
 
 
-def body_inversion(inp, ky, kx, specs, solve=False, split=False):
+def body_inversion(inp, ky, kx, specs, solve=False, split=False, via="direct"):
     import autoarray as aa
     from autoconf import conf
     mask2d = np.array(inp["mask"], dtype=bool)
@@ -988,7 +1003,7 @@ def body_inversion(inp, ky, kx, specs, solve=False, split=False):
     s = _obj(inp["noise"]).reshape(-1)[:n]
     K = _obj(inp["kernel"], (ky, kx))
     A, E = {}, {}
-    built = hx.attempt(build_dataset, mask2d, d, s, K)
+    built = hx.attempt(build_dataset, mask2d, d, s, K, via)
     if isinstance(built, hx.Raised):
         return {"dataset": built}, {"dataset": "constructed"}
     mask, dataset = built
@@ -1090,6 +1105,19 @@ def body_inversion(inp, ky, kx, specs, solve=False, split=False):
                     Fc = shim.normalise(Fref)
                     A[tag + ".reconstruction_ds2"] = hx.attempt(lambda: np.array(inv2.reconstruction))
                     E[tag + ".reconstruction_ds2"] = exact_solve(np.asarray(Fc, dtype=float) + H, D2ref) if not shim.has_sym(Fc) else "concrete curvature expected"
+                if wt and not all_funcs and not shim.has_sym(s):
+                    # a dataset with ANOTHER (concrete) noise map that is handed the first dataset's w-tilde tables: the inversion must either
+                    # reject the stale tables (InversionException) or still return B^T N^-1 B for the noise map it was given
+                    s3 = np.array([float(v) for v in s]) * 2.0
+                    s3[0] = float(s[0]) * (1.0 + 2.0 ** -16)
+                    _, F3ref = normal_equations(B, d, s3, noreg, EPS_DIAG)
+                    ds3 = aa.DatasetInterface(data=dataset.data, noise_map=aa.Array2D(values=native_from_slim(mask2d, s3), mask=mask),
+                                              convolver=dataset.convolver, w_tilde=dataset.w_tilde, grids=dataset.grids)
+                    F3 = hx.attempt(lambda: np.array(aa.Inversion(dataset=ds3, linear_obj_list=objs, settings=st).curvature_matrix))
+                    if isinstance(F3, hx.Raised) and F3.name == "InversionException":
+                        A[tag + ".stale_tables"], E[tag + ".stale_tables"] = "rejected", "rejected"
+                    else:
+                        put(A, E, tag + ".curvature_matrix_stale_tables", F3, F3ref, split)
                 inv3 = hx.attempt(lambda: aa.Inversion(dataset=dataset, linear_obj_list=objs, settings=st))
                 put(A, E, tag + ".data_vector_ds1_again", inv3 if isinstance(inv3, hx.Raised) else hx.attempt(lambda: np.array(inv3.data_vector)), Dref, split)
     finally:
@@ -1097,7 +1125,7 @@ def body_inversion(inp, ky, kx, specs, solve=False, split=False):
     return A, E
 
 
-def case_inversion(ctx, pattern, ky, kx, specs, mode, extra=0, signed=True, solve=False, nsym=None, ksym=None, noise_exp=0):
+def case_inversion(ctx, pattern, ky, kx, specs, mode, extra=0, signed=True, solve=False, nsym=None, ksym=None, noise_exp=0, via="direct"):
     stop_if_enough(ctx)
     mask = _mask_for(ctx, pattern, ky, kx, extra)
     ctx.set_case(mask_rows=["".join("#" if m else "." for m in row) for row in mask])
@@ -1140,7 +1168,7 @@ def case_inversion(ctx, pattern, ky, kx, specs, mode, extra=0, signed=True, solv
             for e in np.asarray(arr, dtype=object).reshape(-1):
                 if V.is_sym(e):
                     ctx.assume(z3.And(e.t >= -1000, e.t <= 1000))
-    hx.run_body(ctx, body_inversion, inputs, {"ky": ky, "kx": kx, "specs": specs, "solve": solve, "split": mode in ("kernel", "noise", "data+noise") or tol is not None},
+    hx.run_body(ctx, body_inversion, inputs, {"ky": ky, "kx": kx, "specs": specs, "solve": solve, "via": via, "split": mode in ("kernel", "noise", "data+noise") or tol is not None},
                 validate_every=4, known=known, tol=tol)
 
 
@@ -1222,6 +1250,11 @@ def cases(tier):
     out.append((I, {"pattern": "L3", "ky": 3, "kx": 3, "specs": ["R33s2d", "R33s1n"], "mode": "kernel", "ksym": [1, 3, 8]}))
     out.append((I, {"pattern": "zig4", "ky": 3, "kx": 3, "specs": ["F2b", "F2", "R33s1"], "mode": "noise"}))
     out.append((I, {"pattern": "L3", "ky": 5, "kx": 5, "specs": ["R33s1", "F1"], "mode": "kernel", "ksym": [0, 12, 18]}))
+    # public construction variants of the same dataset (derived objects must keep the un-normalised PSF, data and noise)
+    out.append((I, {"pattern": "cross5", "ky": 3, "kx": 3, "specs": ["R33s2d", "F1"], "mode": "data", "solve": True, "via": "over_sampling"}))
+    out.append((I, {"pattern": "zig4", "ky": 3, "kx": 3, "specs": ["R33s1", "R34s2d"], "mode": "data", "solve": True, "via": "apply_mask"}))
+    out.append((I, {"pattern": "block4", "ky": 3, "kx": 3, "specs": ["R33s1"], "mode": "kernel", "ksym": [0, 4, 7], "via": "over_sampling"}))
+    out.append((I, {"pattern": "L3", "ky": 3, "kx": 1, "specs": ["F1", "R33s2d"], "mode": "kernel", "via": "apply_mask"}))
     # smallest legal PSF: a single pixel of value k (not 1: datasets are built un-normalised) scales B by k
     out.append((W, {"pattern": "cross5", "ky": 1, "kx": 1, "mode": "kernel"}))
     out.append((W, {"pattern": "all:2x2", "ky": 1, "kx": 1, "mode": "data+noise"}))
